@@ -1,0 +1,66 @@
+//go:build verif
+
+package service
+
+// Verification hooks (add-only, compiled only with `-tags verif`): let a harness drive one
+// InsertServiceV2 sub-service step by step without the Run goroutine, and look at its bookkeeping.
+
+// VerifSubServices returns the sub-services of the sync and of the async round-robin group.
+func (svc *InsertServiceV2Multimodal) VerifSubServices() (sync []*InsertServiceV2, async []*InsertServiceV2) {
+	svc.mtx.Lock()
+	defer svc.mtx.Unlock()
+	if svc.SyncService != nil {
+		sync = append(sync, svc.SyncService.services...)
+	}
+	if svc.AsyncService != nil {
+		async = append(async, svc.AsyncService.services...)
+	}
+	return
+}
+
+// VerifIterateIfDue is the `case <-svc.insertCtx.Done(): svc.fetchLoopIteration()` branch of Run,
+// taken only if it is ready (non-blocking). Reports whether the iteration ran.
+func (svc *InsertServiceV2) VerifIterateIfDue() bool {
+	select {
+	case <-svc.insertCtx.Done():
+		svc.fetchLoopIteration()
+		return true
+	default:
+		return false
+	}
+}
+
+// VerifState is a snapshot of the bookkeeping of one sub-service.
+type VerifState struct {
+	Pending  int   // len(svc.results)
+	Size     int64 // svc.size
+	Client   bool  // svc.client != nil
+	Running  bool  // svc.running
+	FlushDue bool  // svc.insertCtx is done
+	ColsNil  bool  // svc.columns == nil
+	ColRows  []int // rows per open column
+	State    int   // GetState
+}
+
+func (svc *InsertServiceV2) VerifState() VerifState {
+	svc.mtx.Lock()
+	defer svc.mtx.Unlock()
+	st := VerifState{
+		Pending: len(svc.results),
+		Size:    svc.size,
+		Client:  svc.client != nil,
+		Running: svc.running,
+		ColsNil: svc.columns == nil,
+		State:   svc.GetState(0),
+	}
+	select {
+	case <-svc.insertCtx.Done():
+		st.FlushDue = true
+	default:
+	}
+	for _, c := range svc.columns {
+		in := c.Input()
+		st.ColRows = append(st.ColRows, in.Data.Rows())
+	}
+	return st
+}
